@@ -487,16 +487,19 @@ Proof.
   unfold load_dump. destruct (stored (sr (nd s))) as [[sn|]|]; try lia.
   destruct (cl && _); [cbn; lia|].
   destruct (_ <? _); [lia|].
-  match goal with |- replay_idx (nd (if dyn (cf e) then update_cluster ?l ?s4 else _)) <= _ =>
-    assert (E : replay_idx (nd s4) <= replay_idx (nd s)) end.
-  { rewrite nd_upd. cbn [replay_idx set].
+  cbv zeta.
+  match goal with |- context [update_cluster ?l ?s4] => set (s5 := s4) end.
+  assert (E : replay_idx (nd s5) <= replay_idx (nd s)).
+  { subst s5. rewrite nd_upd. cbn [replay_idx set].
     match goal with |- replay_idx (nd (if ?b then _ else ?s2)) <= _ =>
       assert (E2 : replay_idx (nd s2) = replay_idx (nd s)); [|destruct b] end.
-    - destruct cl; [reflexivity|].
-      repeat (match goal with |- context [match ?x with _ => _ end] => destruct x end; try reflexivity).
+    - match goal with |- context [if ?b then _ else _] => destruct b end; reflexivity.
     - rewrite nd_upd. cbn [replay_idx set]. rewrite E2. lia.
     - rewrite E2. lia. }
-  destruct (dyn (cf e)); [rewrite (fr_update_cluster replay_idx) by frs|]; exact E.
+  clearbody s5.
+  destruct (dyn (cf e)); [|exact E].
+  match goal with |- context [if ?b then apply_membership _ _ _ else _] => destruct b end;
+    rewrite ?(fr_apply_membership replay_idx) by frs; rewrite (fr_update_cluster replay_idx) by frs; exact E.
 Qed.
 
 Lemma load_dump_fkeeps e cl s : fkeeps (nd s) (nd (load_dump e cl s)).
